@@ -342,6 +342,7 @@ def _reserved_slots(ctx: Ctx, cls, itf: FunctionInfo) -> tuple[Optional[bool], s
         itp = Interp(ctx.prog, cls, lambda *_: None, call_model, max_depth=5, max_traces=4)
         itp.instantiate_classes = True      # small helper objects of the repository (an ordering, a record) are followed
         itp.on_start = asked.clear
+        itp.range_cap = 512                 # the sizes of the cases below are unrolled
         p = itf.params
         env = {"self": Sym("self"), p[1]: Sym("problem"), p[2]: Sym("evaluator"), p[3]: Sym("representation"), p[4]: Sym("random"),
                p[5]: [Sym(f"i{j}") for j in range(n)], p[6]: n, p[7]: 0, "self.steps": [Sym(f"step{j}") for j in range(len(weights))],
@@ -381,21 +382,24 @@ def _passes_whole(ctx: Ctx, cls, itf: FunctionInfo) -> tuple[Optional[bool], str
                 return []
         return None
 
-    itp = Interp(ctx.prog, cls, lambda *_: None, call_model, max_depth=5, max_traces=8)
-    itp.instantiate_classes = True      # small helper objects of the repository (an ordering, a record) are followed
-    itp.on_start = got.clear
-    p = itf.params
-    env = {"self": Sym("self"), p[1]: Sym("problem"), p[2]: Sym("evaluator"), p[3]: Sym("representation"), p[4]: Sym("random"),
-           p[5]: [Sym(t) for t in tags], p[6]: 4, p[7]: 0, "self.steps": [Sym("step1"), Sym("step2")], "self.weights": [1, 1]}
-    try:
-        runs = itp.run(itf, env)
-    except Budget:
-        return None, "too many interpretations"
-    if not got:
-        return None, "no sub-step application is reached in the model"
-    for g in got:
-        if g is None:
-            return None, "the population handed to a sub-step is not followed"
-        if sorted(g) != tags:
-            return False, f"sub-steps receive {g} of the population {tags}"
+    # target sizes: the population's own size, and a smaller one (a shrinking population: the best may sit anywhere in the input,
+    # so a host that reads only the first target_size individuals hides it from the elitism step)
+    for target in (4, 2):
+        itp = Interp(ctx.prog, cls, lambda *_: None, call_model, max_depth=5, max_traces=8)
+        itp.instantiate_classes = True      # small helper objects of the repository (an ordering, a record) are followed
+        itp.on_start = got.clear
+        p = itf.params
+        env = {"self": Sym("self"), p[1]: Sym("problem"), p[2]: Sym("evaluator"), p[3]: Sym("representation"), p[4]: Sym("random"),
+               p[5]: [Sym(t) for t in tags], p[6]: target, p[7]: 0, "self.steps": [Sym("step1"), Sym("step2")], "self.weights": [1, 1]}
+        try:
+            runs = itp.run(itf, env)
+        except Budget:
+            return None, "too many interpretations"
+        if not got:
+            return None, "no sub-step application is reached in the model"
+        for g in got:
+            if g is None:
+                return None, "the population handed to a sub-step is not followed"
+            if sorted(g) != tags:
+                return False, f"with target_size {target} sub-steps receive {g} of the population {tags}"
     return True, ""
